@@ -79,8 +79,8 @@ Print Assumptions label_document_roundtrip_partial_ascii.
 
 (* (b) Every acknowledged sample has a successfully inserted series row for its day, in every
    history of pushes (any streams, any insert outcomes) and cache resets: FALSE of the code as it is.
-   The pair (day, fingerprint) is marked as announced while parsing; if the series insert then fails
-   (5xx), the client's retry finds the pair cached, sends no series row and is acknowledged. *)
+   The triple (day, fingerprint, type) is marked as announced while parsing; if the series insert then
+   fails (5xx), the client's retry finds it cached, sends no series row and is acknowledged. *)
 Theorem acked_sample_is_indexed_refuted :
   exists h, all_indexed (run init h) = false.
 Proof. exists w_retry. exact w_retry_not_indexed. Qed.
@@ -93,19 +93,15 @@ Theorem acked_sample_is_indexed_partial : forall h,
 Proof. exact acked_indexed_clean. Qed.
 Print Assumptions acked_sample_is_indexed_partial.
 
-(* The read side selects series rows by sample type (type IN (t, 0)). With the type taken into
-   account the statement fails even without any fault: a label set first seen with log lines, then
-   (same day, same cache epoch) with metric values gets no type-2 row. *)
-Theorem acked_sample_is_indexed_typed_refuted :
-  exists h, clean_hist false h = true /\ all_indexed_typed (run init h) = false.
-Proof. exists w_types. destruct w_types_not_indexed as [H1 H2]. split; assumption. Qed.
-Print Assumptions acked_sample_is_indexed_typed_refuted.
-
-(* It holds when, additionally, a fingerprint always arrives with the same set of sample types. *)
-Theorem acked_sample_is_indexed_typed_partial : forall h,
-  clean_hist false h = true -> types_stable h = true -> all_indexed_typed (run init h) = true.
+(* The read side selects series rows by sample type (type IN (t, 0)). Under the same guard every
+   acknowledged sample has an inserted row of its own day AND type, whatever mixture of log lines
+   and metric values a label set arrives with (the announcement cache is keyed per type since the
+   fix recorded in findings.d/C04.txt; before it [Push L log; Push L metric] left the metric sample
+   without a type-2 row). *)
+Theorem acked_sample_is_indexed_typed : forall h,
+  clean_hist false h = true -> all_indexed_typed (run init h) = true.
 Proof. exact acked_indexed_typed_clean. Qed.
-Print Assumptions acked_sample_is_indexed_typed_partial.
+Print Assumptions acked_sample_is_indexed_typed.
 
 (* (c) The series row of a sample is stored under a day the reader's lower date bound
    (UTC day of from - 30 min) does not exclude, for EVERY process time zone tz, every query start
